@@ -127,10 +127,17 @@ var (
 
 // zzStubDetect replaces (*motionDetector).Detect: the properties quantify over
 // every motion bit-string.
+// Like the real Detect with a dynamic threshold it may move the threshold
+// (arbitrary new value per call): whatever is handed to the recorder at a
+// trigger must be read after the trigger frame was analysed.
 func zzStubDetect(d *motionDetector, f *cptvframe.Frame) bool {
 	zzDetectCalls++
+	d.tempThresh = zzU16("det.thresh", zzEvIdx)
 	return zzMotionBit
 }
+
+// zzEvIdx: index of the current event (set by the harness loops; concrete)
+var zzEvIdx int
 
 // zzStubActive replaces (*window.Window).Active in the engine; natively the
 // window's clock is hooked instead (zzWindowNow).
@@ -314,7 +321,7 @@ func zzMPEvent(h *zzMP, t int) {
 	w := zzBool("w", t)
 	d := zzBool("d", t)
 	s := zzBool("s", t)
-	zzMotionBit, zzGateOpen = m, w
+	zzMotionBit, zzGateOpen, zzEvIdx = m, w, t
 	sink.failCheck, sink.failStart = !d, !s
 	raw := make([]byte, 2)
 
@@ -512,7 +519,7 @@ func ZZ_MP_bmc() {
 		ev := zzInt("ev", t)
 		zzAssume(0 <= ev && ev < 3)
 		m, w, d, s := zzBool("m", t), zzBool("w", t), zzBool("d", t), zzBool("s", t)
-		zzMotionBit, zzGateOpen = m, w
+		zzMotionBit, zzGateOpen, zzEvIdx = m, w, t
 		sink.failCheck, sink.failStart = !d, !s
 		sink.starts, sink.startOKs, sink.stops, sink.writes, sink.checks = 0, 0, 0, 0, 0
 		if ev == 0 {
